@@ -1,4 +1,4 @@
-import KoordVerif.Proofs.C01ExtMixed
+import KoordVerif.Proofs.C01ExtGoOrder
 /-
 C01 — elastic-quota used/request accounting is exact over any event history.
 
@@ -248,6 +248,26 @@ theorem (`PodPre` / `UpdPre`) the plan is safe. -/
 theorem handler_sections {s : State} {ev : PodEv} (hg : Good s) (hpre : ev.Pre s) :
     runMicros s (ev.plan s) = step s ev.op ∧ Safe (stat s) ev.id (localOf s (cntOf s) ev.id) (ev.plan s) :=
   ⟨PodEv.run_plan hg.pods ev (PodEv.wf_of_pre hpre), PodEv.safe hg hpre⟩
+
+/-- Go (repair 7265fb2) refreshes the cached object AFTER the used / assigned handling of OnPodUpdate's same-quota
+branch, the atomic model right after the request section: the Go order (`planSameGoV`, the one Ties/C01.lean ties
+to the source) is safe under the same precondition and leaves the pod's local view exactly as the model order
+does — the generic pool theorems `interleaving_*` hold for any safe plan. -/
+theorem update_refresh_position {s : State} {n : Nat} {np op : PodObj} {e : Pod}
+    (hst : stat s n = some true) (hnnN : 0 ≤ np.req) (hnnO : 0 ≤ op.req) (he : entry s n np.id = some e)
+    (hreq : e.req = op.req) (hnp : e.np = op.np) :
+    FSafeRun (stat s n) np.id (focus (localOf s (cntOf s) np.id) n) (planSameGoV (some e) n np op) ∧
+    FSettled (frun (stat s n) (focus (localOf s (cntOf s) np.id) n) (planSameGoV (some e) n np op)) ∧
+    frun (stat s n) (focus (localOf s (cntOf s) np.id) n) (planSameGoV (some e) n np op) =
+      frun (stat s n) (focus (localOf s (cntOf s) np.id) n) (planSameV (some e) n np op) :=
+  safe_planSameGoV hst hnnN hnnO he hreq hnp
+
+/-- OnPodDelete gives back what the group ACCOUNTED (the cached object's amounts, repair 7265fb2): it keeps the
+invariant without any informer-consistency hypothesis on the delivered object. -/
+theorem delete_needs_no_consistency {s : State} {n : Nat} {p : PodObj} (h : Good s)
+    (hmax : ∀ q, get? s n = some q → q.max.isSome = true) :
+    Good (step s (.podDelete n p)) ∧ LocalInv (step s (.podDelete n p)) :=
+  ⟨onPodDelete_good' h hmax, good_localInv (onPodDelete_good' h hmax)⟩
 
 /-- SCHEDULES, handler level: pod events (add / update / delete, any branch) on DISTINCT pods, each admissible in
 the start state, issued from concurrent goroutines.  Whatever way the separately locked sections of their handlers
